@@ -19,6 +19,9 @@ ERR_MARK = [
     ("service does not exist", "service does not exist"),
     ("parameter todo", "parameter todo"),
     ("fn:fnE", "fixture: FnE fails"),
+    ("env:VERIF_E1", 'environment variable "VERIF_E1" does not exist'),
+    ("env:VERIF_E2", 'environment variable "VERIF_E2" does not exist'),
+    ("envint:VERIF_E2", 'cannot cast env("VERIF_E2") to int'),
 ]
 
 
@@ -68,6 +71,10 @@ def op_script(o):
         return {"op": op, "tag": o["id"]}
     if op == "GetTaggedByInContext":
         return {"op": op, "tag": o["id"], "ctx": o["ctx"]}
+    if op == "SetEnv":
+        return {"op": "Env", "set": {o["id"]: o["v"]}}
+    if op == "UnsetEnv":
+        return {"op": "Env", "unset": [o["id"]]}
     if op == "IsTaggedBy":
         return {"op": op, "id": o["id"], "tag": o["tag"]}
     if op == "CircularDeps":
@@ -246,7 +253,8 @@ def run_ext(pid, tier, v, rng, n=None):
                       extra_files={"ext_cases.ndjson": "\n".join(json.dumps(c) for c in cases) + "\n"})
 
 
-def run_family(pid, tier, family, cfgname, v, rng, nontrivial=None, timeout=1500, tags_of=None, counters=False, extra_files=None):
+def run_family(pid, tier, family, cfgname, v, rng, nontrivial=None, timeout=1500, tags_of=None, counters=False, extra_files=None,
+               rejected_is_violation=False):
     """generic R2 loop for one MC_Container family; returns stats"""
     r = core.run_tlc("MC_Container.tla", cfgname, timeout=timeout, extra_files=extra_files)
     if r.violation:
@@ -255,6 +263,11 @@ def run_family(pid, tier, family, cfgname, v, rng, nontrivial=None, timeout=1500
     for c in r.emitted:
         rp.add_case(c)
     entries = rp.generate()
+    if rejected_is_violation:
+        # the family's configurations are valid by the specification and the property itself says so (todo counts as declared)
+        for e in entries:
+            if e["source"] is None:
+                v.disagree("valid-configuration-rejected", {"yaml": e["yaml"]}, {"exit": e["tool"]["exit"], "errors": core.Report(e["tool"]["stdout"]).errors[:4]})
     results = rp.build_and_run(entries)
     n_cases = n_nt = n_cmp = 0
     for e in entries:
@@ -359,14 +372,22 @@ def run_c15(tier):
     rng = random.Random(core.seed())
     v = core.Verdict(pid)
     fam = "todo" if tier == "quick" else "todo4"
-    stats = [run_family(pid, tier, fam, "MC_Container_%s.cfg" % fam, v, rng, timeout=3000, counters=True,
-                        nontrivial=lambda c: any(h["op"]["op"].startswith("Override") for h in c["hist"]) or any(not h["ok"] for h in c["hist"]))]
+    sfx = "" if tier == "quick" else "4"
+    nt = lambda c: any(h["op"]["op"].startswith("Override") for h in c["hist"]) or any(not h["ok"] for h in c["hist"])      # noqa: E731
+    stats = [run_family(pid, tier, fam, "MC_Container_%s.cfg" % fam, v, rng, timeout=3000, counters=True, nontrivial=nt, rejected_is_violation=True),
+             run_family(pid, tier, "todom", "MC_Container_todom%s.cfg" % sfx, v, rng, timeout=3000, counters=True, nontrivial=nt, rejected_is_violation=True),
+             run_family(pid, tier, "lazy", "MC_Container_lazy%s.cfg" % sfx, v, rng, timeout=3000, counters=True,
+                        nontrivial=lambda c: any(h["op"]["op"] in ("SetEnv", "UnsetEnv") for h in c["hist"]), rejected_is_violation=True)]
     return finish(pid, tier, t0, v, stats, "model_checking",
+                  "family lazy: parameters backed by env / envInt (with and without defaults, alone, in a multi-chunk pattern, as direct "
+                  "arguments) x every history of that length over {SetEnv, UnsetEnv, GetParam, Get, OverrideParam}: the environment is read "
+                  "at first use, failures are not cached; family todom: the todo configurations with every service re-opened by a second "
+                  "file; family todo: "
                   "every subset of {p1, p2, s1, s2} marked todo (16 configurations) x every history of length %d over "
                   "{GetParam p1/p2, Get s1/s2, OverrideParam p1/p2, OverrideService s1/s2}; results, errors (documented texts), object "
                   "graphs and the invocation counters of the parameter function (zero right after the constructor) are compared; "
                   "non-trivial = the history contains an override or a failing operation" % (3 if tier == "quick" else 4),
-                  ["TodoFails", "LazyParams", "SharedOnce"], COMMON_ASSUMPTIONS)
+                  ["TodoFails", "LazyParams", "SharedOnce", "NotCachedOnFailure"], COMMON_ASSUMPTIONS)
 
 
 BASE_API = {"Get", "GetInContext", "CircularDeps", "OverrideService", "AddDecorator", "IsTaggedBy", "GetTaggedBy",
